@@ -92,6 +92,15 @@ def hook_fn(hid):
         f = hid[len('fill:'):]
         def h(self):
             object.__setattr__(self, f, 0)
+    elif hid.startswith('assign:'):
+        # the same through a PLAIN assignment (classes that are not frozen): `PaneBase.__setattr__` runs, which needs the instance
+        # to be fully set up when the hook is called -- on every path.  (The record of set fields is left as it was.)
+        f = hid[len('assign:'):]
+        def h(self):
+            was = f in self.__pane_set__
+            setattr(self, f, 0)
+            if not was:
+                self.__pane_set__.discard(f)
     else:
         raise ValueError(hid)
     return h
@@ -745,6 +754,15 @@ def run(scen, ctx):
         out = None
         if op == 'from_data':
             out = result_of(ctx, lambda: pane.from_data(val, T, custom=custom) if scen.get('api', True) else conv.convert(val))
+            if scen.get('same_builtin_handler') and custom is None:
+                # C02 / C18: a mapping-form handler matches only the EXACT unparameterised type, so passing the library's own
+                # converter of a type K as `{K: make_converter(K)}` changes nothing, whatever the target is (a bool target must not
+                # pick up the entry for int, a str subclass not the one for str, ...)
+                K = {'int': int, 'float': float, 'str': str, 'bytes': bytes, 'complex': complex, 'bool': bool}[scen['same_builtin_handler']]
+                alt = result_of(ctx, lambda: pane.from_data(ctx.dec(scen['val']), T, custom={K: make_converter(K)}))
+                if canon(alt) != canon(out):
+                    scen.setdefault('_oracle_pre', {})['c02h'] = (f'from_data({val!r}, <type>) = {json.dumps(out)[:200]}, but with custom={{{K.__name__}: make_converter({K.__name__})}} '
+                                                             f'(the library\'s own converter of {K.__name__}) it is {json.dumps(alt)[:200]}')
         elif op == 'try_collect':
             try:
                 tr = {'ok': ctx.enc(conv.try_convert(val))}
@@ -967,6 +985,30 @@ def run_process(scen):
            'minPos': e['info']['minPos'], 'maxPos': e['info']['maxPos'], 'eq': info.opts.eq, 'order': info.opts.order,
            'frozen': info.opts.frozen, 'unsafeHash': info.opts.unsafe_hash, 'kwOnly': info.opts.kw_only,
            'params': [p.__name__ for p in getattr(cls, '__parameters__', ())], 'nHandlers': len(info.opts.class_handlers)}
+    # `frozen` as it BEHAVES, not as the option record says: an assignment on an instance of the class (and of a subscripted
+    # form of it) is refused iff the class is frozen
+    if info.fields:
+        from dataclasses import FrozenInstanceError
+        probes = [cls]
+        if getattr(cls, '__parameters__', ()):
+            try:
+                probes.append(cls[tuple(int for _ in cls.__parameters__)])
+            except BaseException:  # noqa
+                pass
+        for pc in probes:
+            inst = object.__new__(pc)
+            try:
+                object.__setattr__(inst, '__pane_set__', set())
+                setattr(inst, info.fields[0].name, 1)
+                refused = False
+            except FrozenInstanceError:
+                refused = True
+            except BaseException:  # noqa
+                continue
+            if refused != bool(info.opts.frozen):
+                out['frozen'] = refused
+                scen['_oracle'] = {'c17': f'class {pc.__name__}: the (inherited / overridden) option frozen={info.opts.frozen}, but assigning to a field of an instance is '
+                                          f'{"refused" if refused else "allowed"}'}
     h = cls.__dict__.get('__hash__', 'absent')
     if h == 'absent':
         act = 'leave'
@@ -1167,7 +1209,14 @@ def run_instance_op(scen, ctx):
         return done(result_of(ctx, lambda: cls.make_unchecked(*args, **kwargs)))
     if op == 'fromdict':
         st = scen.get('set')
-        return done(result_of(ctx, lambda: cls.from_dict_unchecked(dict(kwargs), set_fields=None if st is None else set(st))))
+        caller_dict = dict(kwargs)           # the caller's own dict: it must come back as it went in
+        caller_set = None if st is None else set(st)
+        before = (list(caller_dict.items()), None if caller_set is None else sorted(caller_set))
+        res = result_of(ctx, lambda: cls.from_dict_unchecked(caller_dict, set_fields=caller_set))
+        after = (list(caller_dict.items()), None if caller_set is None else sorted(caller_set))
+        if [k for k, _ in after[0]] != [k for k, _ in before[0]] or any(a is not b for (_, a), (_, b) in zip(after[0], before[0])) or after[1] != before[1]:
+            scen['_oracle'] = {'c09': f'from_dict_unchecked modified its arguments: the dict had keys {[k for k, _ in before[0]]}, now {[k for k, _ in after[0]]}; set_fields {before[1]} -> {after[1]}'}
+        return done(res)
     obj = ctx.dec(scen['obj'])
     if op == 'dictview':
         try:
